@@ -79,6 +79,16 @@ pub fn c03_deep_case(seed: u64, case: u64) -> CaseResult {
     let info = if place == 3 {
         let mut i = Map::new();
         i.insert("meta".into(), deep.clone());
+        // hostile strings as metadata keys and values, extreme numbers
+        for n in 0..r.below(6) {
+            let k = gen::STRS[r.below(gen::STRS.len())].to_string();
+            let v = match n % 3 {
+                0 => json!(gen::STRS[r.below(gen::STRS.len())]),
+                1 => json!([1e300, -0.0, 18446744073709551615u64, i64::MIN, 0.30000000000000004]),
+                _ => json!({"k}": {"\"": [null, true]}}),
+            };
+            i.insert(k, v);
+        }
         Some(i)
     } else {
         gen::rand_info(&mut r, 1)
